@@ -22,7 +22,7 @@ use iceoryx2_bb_container::vector::{RelocatableVec, Vector};
 use proptest::prelude::*;
 use serde::Serialize;
 use serde::de::DeserializeOwned;
-use std::cell::{Cell, RefCell};
+use std::cell::RefCell;
 use std::cmp::Ordering;
 use vcore::{Ctx, Failure, Obs, ensure};
 
@@ -33,7 +33,6 @@ macro_rules! relocating {
         let cell = RefCell::new($mem);
         let trk = RefCell::new(Tracker::default());
         let mem_err: RefCell<Option<Failure>> = RefCell::new(None);
-        let moved = Cell::new(false);
         if $c.start {
             if let Err(e) = cell.borrow_mut().relocate() {
                 *mem_err.borrow_mut() = Some(e);
@@ -51,7 +50,6 @@ macro_rules! relocating {
                 if $c.reloc_after(step) && mem_err.borrow().is_none() {
                     match cell.borrow_mut().relocate() {
                         Ok(()) => {
-                            moved.set(true);
                             if ne {
                                 t.relocated_nonempty = true;
                             }
@@ -194,7 +192,7 @@ fn family<O>(
     len: usize,
     cfgs: u8,
     caps: &[usize],
-    strategy: impl Strategy<Value = O> + Clone + 'static,
+    strategy: impl Strategy<Value = O> + 'static,
     random_cases: u64,
     run: fn(&Case<O>, &mut Obs) -> Result<(), Failure>,
 ) where
@@ -222,20 +220,21 @@ fn family<O>(
         cases,
         |c, obs| run(c, obs),
     );
-    let strat = (0..cfgs, 0usize..=4, 0u8..3, any::<bool>(), 0u8..5, proptest::collection::vec((strategy, any::<u8>()), 0..200)).prop_map(|(cfg, cap, mem, start, density, v)| {
+    let strat = (0..cfgs, 0usize..=4, 0u8..8, any::<bool>(), 0u8..5, proptest::collection::vec((strategy, any::<u8>()), 0..200)).prop_map(|(cfg, cap, mem, start, density, v)| {
+        let mem = crate::mem_kind(mem);
         let (ops, bytes): (Vec<O>, Vec<u8>) = v.into_iter().unzip();
-        Case { cfg, cap, mem, start, reloc: mask(density, &bytes), ops }
+        Case { cfg, cap, mem, start, reloc: mask(mem, density, &bytes), ops }
     });
     ctx.proptest(&format!("{name}.random"), random_cases, strat, |c, obs| run(c, obs));
 }
 
 pub fn parts(ctx: &mut Ctx) {
     let len = ctx.scale(5, 6);
-    let n = ctx.scale(3_000, 100_000);
-    family(ctx, "vec", vop_alphabet(), len, 1, &[0, 1, 2, 3], vop_strategy(), n, run_vec);
-    family(ctx, "queue", qop_alphabet(), ctx.scale(6, 7), 2, &[0, 1, 2, 3], qop_strategy(), n, run_queue);
-    family(ctx, "slotmap", sop_alphabet(), len, 1, &[0, 1, 2, 3], sop_strategy(), n, run_slotmap);
-    family(ctx, "flatmap", fop_alphabet(), len, 1, &[0, 1, 2, 3], fop_strategy(), n, run_flatmap);
+    let n = ctx.scale(12_000, 200_000);
+    family(ctx, "vec", vop_alphabet(), len, 1, &[1, 2, 3], vop_strategy(), n, run_vec);
+    family(ctx, "queue", qop_alphabet(), ctx.scale(6, 7), 2, &[1, 2, 3], qop_strategy(), n, run_queue);
+    family(ctx, "slotmap", sop_alphabet(), len, 1, &[1, 2, 3], sop_strategy(), n, run_slotmap);
+    family(ctx, "flatmap", fop_alphabet(), len, 1, &[1, 2, 3], fop_strategy(), n, run_flatmap);
     family(ctx, "string", strop_alphabet(), len, 1, &[0, 1, 2, 3], strop_strategy(), n, run_string);
     family(ctx, "option", oop_alphabet(), len, 1, &[1], oop_strategy(), n, run_option);
 }
